@@ -1063,6 +1063,22 @@ def _spawnclose_rule(chk, prog):
                             guards.add([m for m in names if m != x][0])
             q = q.parent
         missing = [y for y in later if y not in guards]
+        # the source may itself be descriptor 0, 1 or 2 ({:err stdout}): those are the child's standard streams and
+        # must survive - the close needs a test that keeps them out (X > 2 or the like)
+        std_ok = False
+        q = c.parent
+        while q is not None:
+            if q.k == "if" and any(z is c for z in q.kids[1].walk()):
+                for y in q.kids[0].walk():
+                    if y.k == "bin" and y.op in (">", ">=") and is_ref(strip_casts(y.kids[0])) and strip_casts(y.kids[0]).name == x \
+                            and strip_casts(y.kids[1]).v is not None and strip_casts(y.kids[1]).v + (1 if y.op == ">" else 0) >= 3:
+                        std_ok = True
+            q = q.parent
+        if not missing and not std_ok:
+            chk.violation(rule, "os.c", fn.name, "close-std:%s" % x, c.loc,
+                          "the child closes `%s` at %s without a test that it is not one of the descriptors 0-2: with {:err stdout} the source of "
+                          "the dup2 is descriptor 1 itself, the close takes the child's stdout away and its output is lost" % (x, c.loc))
+            continue
         if missing:
             chk.violation(rule, "os.c", fn.name, "close:%s" % x, c.loc,
                           "the child closes `%s` at %s although a later dup2 still reads `%s`, which may be the same handle (the same file given "
